@@ -132,6 +132,14 @@ class ModGen:
                 if b["name"] == "Diff" and not o.get("pairs", True):
                     continue
                 leaves = [l for l in tree_leaves(b["tree"]) if l[1] == w]
+                wider = [l for l in tree_leaves(b["tree"]) if l[1] > w]
+                if wider and self.rng.random() < 0.35:
+                    # a member used only through a slice of its reference (never connected whole)
+                    path, lw = self.rng.choice(wider)
+                    ports = [x["n"] for x in self.bundles if x["of"] == b["name"] and x["port"]]
+                    root = self.rng.choice(ports) if ports and self.rng.random() < 0.4 else self.bundle_inst(b["name"])
+                    a = self.rng.randint(0, lw - w)
+                    return {"k": "slice", "p": {"k": "bref", "root": root, "path": path}, "i": {"s": a, "e": a + w, "st": None}}
                 if leaves:
                     path, _ = self.rng.choice(leaves)
                     ports = [x["n"] for x in self.bundles if x["of"] == b["name"] and x["port"]]
